@@ -8,7 +8,7 @@ tag accepted, unrelated tag rejected with -1), HMAC/HMACA per RFC 2104 with the
 64-byte block (keys up to and beyond 64 bytes), KMAC/KMACA as cXOF("KMAC");
 plus the pre-computed KMAC initial states in all three encodings.
 """
-from . import modecheck, modes, tables
+from . import repo, modecheck, modes, tables
 
 LEVEL = "other"
 MANIFEST = {
@@ -23,6 +23,16 @@ MANIFEST = {
                  "specification oracle; constant-table decoding",
     "engines": ["irdump", "av"],
 }
+
+
+def _inlined_module(js):
+    """the inlined view (file-local helpers inlined into their callers) of a lowered module"""
+    import os
+    from . import ir as _ir
+    out = js[:-5] + ".inlined.json"
+    if not os.path.exists(out):
+        repo.run([repo.IRDUMP, "--inline-internal", os.path.join(os.path.dirname(js), "linked.opt.ll"), out])
+    return _ir.Module.load(out)
 
 
 def run(rep, tier):
@@ -57,7 +67,7 @@ def run(rep, tier):
     from . import widths
     rep.rule("C04.D2", "length arithmetic keeps the full width of size_t (no 32-bit mask or unguarded narrowing before control/addressing)")
     for js, cname, layout, maxs, units in prep:
-        widths.rule(rep, "C04.D2", modes.load_module(js), cname, files=("/src/mac/", "/src/core/"))
+        widths.rule(rep, "C04.D2", _inlined_module(js), cname, files=("/src/mac/", "/src/core/"), inlined=True)
     widths.control(rep, "C04.D2")
     for d in modecheck.run_cases("C04", rid, tier, cases, None):
         rep.merge(d)
